@@ -262,7 +262,7 @@ class Run:
         as known -> KNOWN-FINDING line; still failing and not listed -> violation"""
         from checklib import findings
         listed = findings.listed()
-        for fid, (pid, engine, witness, pred) in findings.DETECTORS.items():
+        for fid, pid, engine, witness, pred in findings.DETECTORS:
             if pid != self.pid:
                 continue
             wp = os.path.join(ROOT, witness)
@@ -271,7 +271,7 @@ class Run:
             else:
                 ops, impl, model, crash = self.run_pair(engine, wp, f'finding-{fid}')
                 fails, detail = pred(impl), ''
-            entry = listed.get(fid)
+            entry = listed.get((fid, pid))
             if fails and entry and entry.get('status') == 'known':
                 self.known_lines.append(f'KNOWN-FINDING: property={self.pid} {entry["signature"]}')
             elif fails:
